@@ -189,6 +189,18 @@ func zzQuery(form int, tagBits []bool) (query.ConditionsSet, func(d zzDesc) bool
 				}
 				return (h[len(h)-1] == x) != invert // (all other bytes are equal by construction)
 			}
+	case 15: // [-]shost:10.0.1.H/mask with the mask's and the address's last byte symbolic
+		invert := zz.Choice("q.invert", 2) == 1
+		m, hb := zz.U8("q.maskbyte"), zz.U8("q.hostbyte")
+		host := net.IP{10, 0, 1, hb}
+		return query.ConditionsSet{{&query.HostCondition{HostConditionSources: []query.HostConditionSource{{Type: query.HostConditionSourceTypeServer}}, Host: host, Mask4: net.IP{255, 255, 255, m}, Mask6: zzFull6, Invert: invert}}},
+			func(d zzDesc) bool {
+				_, sv := zzC02Addrs(d)
+				if len(sv) != 4 {
+					return invert
+				}
+				return ((sv[3]^hb)&m == 0) != invert
+			}
 	case 13, 14: // @sub:id:S [-]chost:@sub:chost@ / [-]shost:@sub:shost@ : the host of another stream
 		invert := zz.Choice("q.invert", 2) == 1
 		S := zz.Range("q.s", 0, 3)
